@@ -56,6 +56,10 @@ def run_one(m):
                 if idx < 0:
                     return m, "skipped", "occurrence not found"
             src = src[:idx] + m["new"] + src[idx + len(m["old"]):]
+            if "old2" in m:
+                if src.count(m["old2"]) < 1:
+                    return m, "skipped", "second anchor text not found"
+                src = src.replace(m["old2"], m["new2"], 1)
             open(path, "w").write(src)
         b = subprocess.run(["go", "build", "./..."], cwd=os.path.join(d, "repo"), env=ENV, capture_output=True, text=True)
         if b.returncode != 0:
